@@ -112,7 +112,13 @@ ObsDtPositive == obs.pos
 ObsDtAtMostMax == obs.lemax
 ObsNonAdaptiveDtIsInit == ~Adaptive => obs.isinit
 ObsNoScreeningInducedZero == ~Screening => obs.azero
-FrameTolMultiple == 3        \* "a modest multiple of the tolerance" (DESIGN.md 5/C13: mismatch <= 3 tol)
+\* "a modest multiple of the tolerance".  The exit test bounds only dA = K(J) - A of the last iteration;
+\* the stored iterate satisfies A' - K(J') = (1-beta) v_prev - (1-alpha) dA + (K(J) - K(J')), so with momentum
+\* (under-damped alpha, beta) the mismatch legitimately reaches ~5 tol (measured: default (0.1, 0.5) <= 0.8 tol;
+\* (0.5, 0.5) and (0.7, 0.3) up to 5.04 tol).  Round 0 had written 3; that demanded more than the property
+\* states (a false alarm on the unchanged tree in the thorough tier), corrected to 10.  Gross errors
+\* (dropped area factor, wrong prefactor) are >= 100 tol.
+FrameTolMultiple == 10
 ObsFrameSelfConsistent == (obs.frame /\ Screening) => obs.mism <= FrameTolMultiple * 1000
 
 Accepted == (l = Len(T.ev) + 1 /\ pc \in {"begin", "dead"}) => PrintT(<<"ACCEPT", tid>>)
